@@ -27,4 +27,26 @@ template <Kind DK, class E, class F> void regC20(const std::string& key) {
     buf[n] = 0; std::string r(buf); if (!r.empty() && r.back() == '\n') r.pop_back(); return r;
   };
 }
+// the same conversion inside the initialiser of a static variable with compile-time constant operands: a debug build must
+// still reject wrong strides (the trial constant evaluation fails on std::abort and the initialisation happens - and aborts - at run time)
+template <Kind DK, class I, long S0, long S1> void regC20Static(const std::string& key) {
+  registry()[key] = [](const Op&) -> std::string {
+    using E = md::extents<I, 3, 4>; using SM = md::layout_stride::mapping<E>; using DM = typename MapOf<DK, E, md::dynamic_extent>::type;
+    int fd[2]; if (pipe(fd) != 0) return "infra";
+    fflush(stdout);
+    pid_t pid = fork();
+    if (pid == 0) {
+      signal(SIGILL, SIG_DFL); signal(SIGFPE, SIG_DFL); signal(SIGTRAP, SIG_DFL);
+      close(fd[0]);
+      static const DM dm = DM(SM(E(), std::array<I, 2>{static_cast<I>(S0), static_cast<I>(S1)}));
+      std::string r = "ok " + extList(dm.extents()) + "\n";
+      (void)!write(fd[1], r.data(), r.size()); _exit(0);
+    }
+    close(fd[1]); char buf[512]; ssize_t n = read(fd[0], buf, sizeof buf - 1); close(fd[0]);
+    int st = 0; waitpid(pid, &st, 0);
+    if (WIFSIGNALED(st)) { int sg = WTERMSIG(st); return sg == SIGABRT ? "abort" : (sg == SIGILL || sg == SIGFPE || sg == SIGTRAP) ? "ub" : "signal " + std::to_string(sg); }
+    if (n <= 0) return "no-output";
+    buf[n] = 0; std::string r(buf); if (!r.empty() && r.back() == '\n') r.pop_back(); return r;
+  };
+}
 } // namespace vh
